@@ -224,6 +224,7 @@ func c12Alphabet(tier string) func(raw json.RawMessage, depth int) []Op {
 				ops = append(ops, Op{K: "update", S: si, MUs: usage(100, s.LastGrant[1], tag), Seq: seq})
 				ops = append(ops, Op{K: "release", S: si, MUs: usage(-1, s.LastGrant[1], tag), Trig: []string{"FINAL"}, Seq: seq})
 				// rejected requests addressed around this session
+				ops = append(ops, Op{K: "update", U: s.U, S: si, Ref: "nosuchsession", MUs: usage(100, 10, tag), Seq: seq, Method: "unknown-reference", Notify: "http://smf-x.example/notify"})
 				ops = append(ops, Op{K: "update", S: si, Supi: supiX, MUs: usage(100, 10, tag), Seq: seq, Method: "unknown-subscriber"})
 				ops = append(ops, Op{K: "release", S: si, Supi: supiX, MUs: usage(-1, 10, tag), Trig: []string{"FINAL"}, Seq: seq, Method: "unknown-subscriber"})
 				ops = append(ops, Op{K: "update", U: s.U, S: si, Ref: "nosuchsession", MUs: usage(100, 10, tag), Seq: seq, Method: "unknown-reference"})
@@ -398,6 +399,9 @@ func buildBody(c *Chooser, k string) (body string, supi string) {
 		case 6:
 			pci["unitCountInactivityTimer"] = -1
 			pci["rANSecondaryRATUsageReport"] = jsonObj{}
+		}
+		if z := c.Pick(7, "uetimeZone"); z > 0 {
+			pci["uetimeZone"] = []string{"", "+08:00", "+08:00Z", "+08:00+1", "-05:00 ", "+8", "-13:60+2"}[z]
 		}
 		if psi, ok := pci["pduSessionInformation"].(jsonObj); ok {
 			switch c.Pick(5, "pduSessionInformation.members") {
